@@ -17,8 +17,10 @@ TECH = 'deterministic simulation with fault injection: seeded search over %s, ch
 CHECKS = {
     'C03': ('archsim', 'exploration', '3',
             'seeded operation schedules (4-70 mapping ops, clock steps incl. same-second rewrites, re-opens, '
-            'failing ops, listing-order permutations) over every constructible archive configuration, each step '
-            'compared with a plain dict for the target and all sibling archives',
+            'failing ops, listing-order permutations, values above one MiB, keys with input files / long / with '
+            'separators) over every constructible archive configuration, each step compared with a plain dict for the '
+            'target and all sibling archives (30% of runs read the full contents back only every few steps, so that '
+            'the harness does not hide state one operation leaves for the next)',
             'samples histories, not all of them; key/value domains limited to what each encoding represents '
             'losslessly; sqlalchemy/hdf5 backends not installed',
             TECH % ('operation/clock/listing-order schedules', 'an executable dict model after every step')),
@@ -32,36 +34,42 @@ CHECKS = {
                     'a dict model of the durable contents')),
 }
 
-MEMO_NOTE = ('samples configurations and histories (not exhaustive); wrapped functions are deterministic, '
-             'equality-respecting and return strings; argument pools never mix values equal across types; '
-             'flat keymaps with variadic signatures only with a sentinel; in-memory archives do not survive a restart')
+MEMO_NOTE = ('samples configurations and histories (not exhaustive); wrapped callables are deterministic and '
+             'equality-respecting (nine Python signatures incl. float defaults and two required parameters, plus the '
+             'builtin max over comparison-logging ints); results are strings, and for a fixed fraction of calls None, '
+             "'', 0 or a string of 9 kB / 1.2 MB; argument pools never mix values equal across types; flat keymaps "
+             'with variadic signatures only with a sentinel; in-memory archives do not survive a restart')
 MEMO_TECH = TECH % ('call/management/restart/fault histories over the decorator x maxsize x purge x keymap x backend space',
                     '%s')
 for _p, _txt, _orc in [
     ('C01', 'every value returned through any of the 12 decorators, at every step of seeded histories mixing calls '
-            '(several spellings), load/dump/clear/toggle/swap, restarts on the same location and clock steps, is '
+            '(several spellings), load/dump/clear/toggle/swap, restarts on the same location, clock steps, calls of a second '
+            'instance on the same archive and of a sibling function sharing the code object (other defaults), is '
             'compared with a direct evaluation of the undecorated function; no exception other than the function\'s own '
             'may reach the caller', 'a direct evaluation of the undecorated function at every call'),
     ('C02', 'an evaluation is accepted only if, just before the call, the key was neither resident nor in the attached '
             'archive; in strict runs (lossless archive attached throughout, graceful restarts, second instances) each '
-            'key is evaluated at most once over the whole history', 'an evaluation log and the observed memory/archive contents before each call'),
+            'key is evaluated at most once over the whole history; a second decorated function (own decorator, own memory, '
+            'own handle) on the same persistent archive is interleaved and must not evaluate a key that is in its memory '
+            'or in the shared archive', 'an evaluation log and the observed memory/archive contents before each call'),
     ('C05', 'after every call len(cache) <= max(maxsize, len before) over histories with bulk load() overfills, '
             'toggles, restarts and dill copies; maxsize 0/None in keyword and positional spelling; purge empties memory '
             'on overflow of an archived cache', 'the capacity invariant after every call'),
     ('C06', 'call-only histories from an empty cache (plus raising calls), up to 400 steps with hit bursts that trigger '
-            'the LRU queue compaction: the set leaving memory on each overflow must be exactly what LRU/MRU/LFU/RR '
+            'the LRU queue compaction, caches of 30-40 entries (LFU batch > 2) and sweep workloads that tie all use counts: the set leaving memory on each overflow must be exactly what LRU/MRU/LFU/RR '
             'select according to last-use stamps and use counts kept by the harness', 'an executable policy model (last-use stamps, use counts) after every call'),
     ('C07', 'every key leaving memory during a call must be in the attached archive with the same value, no archived '
             'entry may change or vanish, and in strict runs every computed result stays retrievable', 'the observed memory/archive contents before and after every call'),
     ('C15', 'info() must equal (hits, misses, loads) classified from the evaluation log and residency before each call, '
             'plus configured maxsize and current size, after every step of histories with clear/load/dump/toggle/'
-            'restart/clone, raising calls and safe fallbacks', 'counters derived from the evaluation log after every step'),
+            'restart/clone, raising calls and safe fallbacks; calls made through a second function built from the SAME '
+            'decorator object, and calls of a second instance on the same archive, must not move the counters', 'counters derived from the evaluation log after every step'),
     ('C16', 'injected exceptions at seeded calls: the same exception object reaches the caller after one evaluation and '
             'info/cache/archive are unchanged; a twin world without those calls must show identical observations at '
             'every other step (exposes corrupted recency/frequency state); safe variants with unhashable/unencodable '
             'arguments evaluate once and return', 'a lock-step twin world that omits the raising calls'),
     ('C18', 'key()/lookup() probes at seeded points (resident, evicted, never seen arguments; ignore and tol/deep '
-            'configurations): key() names the entry a call creates, lookup() returns the resident value or raises '
+            'configurations, float defaults, a builtin that cannot be introspected): key() names the entry a call creates, lookup() returns the resident value or raises '
             'KeyError, neither evaluates; a twin world without probes must show identical observations', 'a lock-step twin world without the probes'),
     ('C20', 'dill round trip of the decorated function at a seeded step: equal cache contents, info and settings at the '
             'round trip; the world continuing with the copy and the world continuing with the original must agree at '
@@ -82,11 +90,13 @@ CHECKS['C13'] = ('crashsim', 'fault_enumeration', '4',
     'against the old-or-new dict model')
 
 CHECKS['C14'] = ('racesim', 'exploration', '4',
-    'seeded schedules at file-system/SQL-call granularity over 2-3 real client processes (writer/writer on distinct keys, '
-    'writer/reader, overwriter/reader, deleter/reader, writer/opener) on dir (all encodings), sqlite-file and single-file '
-    'archives; the recorded invoke/return history is checked: nobody fails, every value read was stored for that key by an '
-    'overlapping or preceding write, no never-stored key appears, stable keys are not missed, a fresh handle sees every '
-    'acknowledged write; sqlite busy-waits run on virtual time',
+    'seeded schedules at file-system/SQL-call granularity over 2-3 real client processes (writer/writer on distinct keys '
+    'via set/update/cache.dump/setdefault, writer/reader, overwriter/reader, deleter/reader, writer/opener, a client that '
+    'discards an absent key and then idles) on dir (all encodings), sqlite-file and single-file archives; the recorded '
+    'invoke/return history is checked: nobody fails, every value read was stored for that key by an overlapping or '
+    'preceding write, no never-stored key appears, stable keys are not missed, a single-file reader sees one complete '
+    'dictionary that existed, a fresh handle sees every acknowledged write; sqlite busy-waits run on virtual time and a '
+    'busy timeout is accepted only while another client has an operation in flight (finished clients stay alive, idle)',
     'one sampled schedule per scenario (not all interleavings); interleaving granularity is the intercepted Python-level '
     'call (C-level sequences inside sqlite / importlib are atomic); file archive limited to one writer plus readers/openers',
     'deterministic simulation with fault injection: seeded scheduler over real client processes parked at every intercepted '
@@ -104,7 +114,8 @@ CHECKS['C08'] = ('syncsim', 'exploration', '4',
 CHECKS['C17'] = ('sessions', 'exploration', '4',
     "chains of 2-3 exec'd interpreters on one persistent archive; the scheduler gives each session its own PYTHONHASHSEED, "
     'extra imports, junk objects, unrelated earlier cache traffic, cwd and its own spelling of every call (keyword order, '
-    'defaults spelled or not, positional vs keyword); key() of every call must be byte-identical in all sessions and later '
+    'defaults spelled or not, positional vs keyword), optionally an ignore specification and a sibling function (same code '
+    'object, other defaults) memoized first; key() of every call must be byte-identical in all sessions and later '
     'sessions must be served by loads without any evaluation, for raw/string/pickle/json/md5/sha1 keymaps x flat x typed x '
     'sentinel over every persistent backend',
     "samples chains; arguments restricted to values whose repr/pickle is process independent; ~0.3 s per exec'd session "
